@@ -263,6 +263,65 @@ def seq_number_freed_only_after_handshake(rep, rng):
     rep.case(('seq-number-freed', 'b', state_before), True, sample=replay)
 
 
+def stale_reopen_history(max_ch, warm):
+    """open `warm`+1 channels, close the last, open another (it gets the closed one's number, as it should), then call open()
+    on the closed object again (a re-open, C08): -> what the broker and the application see"""
+    import amqpstorm
+    out = {}
+    policy = refbroker.Policy()
+    policy.channel_max = max_ch
+
+    def scenario(ctx):
+        conn = amqpstorm.Connection('localhost', 'guest', 'guest', heartbeat=0, timeout=1)
+        broker = ctx.net.brokers[0]
+        keep = [conn.channel(rpc_timeout=2) for _ in range(warm)]
+        old = conn.channel(rpc_timeout=2)
+        old.close()
+        new = conn.channel(rpc_timeout=2)
+        out['ids'] = [c.channel_id for c in keep] + [old.channel_id, new.channel_id]
+        try:
+            old.open()
+            out['reopen'] = 'returned'
+        except amqpstorm.AMQPError as why:
+            out['reopen'] = type(why).__name__
+        out['states'] = [c.current_state for c in keep] + [old.current_state, new.current_state]
+        out['keys'] = sorted(conn.channels)
+        out['last'] = conn._last_channel_id or 0
+        out['broker'] = [v for v in broker.violations if 'Channel.Open' in v]
+    ctx = vrt.run_scenario(scenario, refbroker.factory(policy), seed=1, p_preempt=0.0, p_jump=0.0, repo_path=str(common.REPO))
+    out['abort'] = ctx.sched.abort_reason
+    return out
+
+
+def seq_stale_reopen(rep, rng, lines, expect, meta):
+    max_ch = rng.choice([0, 1, 2, 5])
+    warm = rng.randint(0, 2) if max_ch in (0, 5) else max_ch - 1
+    r = stale_reopen_history(max_ch, warm)
+    replay = {'kind': 'stale-reopen', 'max': max_ch, 'warm': warm}
+    rep.case(('stale-reopen', max_ch, warm), True, sample=replay)
+    if r['abort'] != 'all application threads finished' or 'ids' not in r:
+        rep.violation('C10/stale-reopen/run-did-not-finish', 'scenario ended with %s' % r['abort'], replay)
+        return
+    ids, st = r['ids'], r.get('states', [])
+    in_use = [i for i, s in zip(ids, st) if s != 0]
+    if len(in_use) != len(set(in_use)) or r.get('broker'):
+        rep.violation('C10/stale-reopen-shares-number', 'channel(); close(); channel() hands number %d to the new channel (fine); open() on the '
+                      'closed object then %s: channels in use carry the numbers %r%s' % (
+                          ids[-1], 'returned' if r['reopen'] == 'returned' else 'raised ' + r['reopen'], in_use,
+                          ('; the broker saw: ' + r['broker'][0]) if r.get('broker') else ''), replay)
+    # the same history in the model (Alloc.reopen does what Channel.open() does: no look at the registry)
+    m = 65535 if max_ch == 0 else max_ch
+    n = warm + 2
+    ls = ['c10.reset %d' % m]
+    for k in range(warm + 1):
+        ls += ['c10.open', 'c10.opened %d' % k]
+    ls += ['c10.closeStart %d' % warm, 'c10.closed %d' % warm, 'c10.open', 'c10.opened %d' % (warm + 1), 'c10.reopen %d' % warm]
+    lines += ls
+    expect += [None] * (len(ls) - 1) + ['ok last=%d keys=%s objs=%s' % (r['last'], ','.join(str(k) for k in r['keys']),
+                                                                        ','.join('%d:%d' % p for p in zip(ids, st)))]
+    meta += [('stale-reopen', max_ch, warm)] * len(ls)
+
+
 def seq_open_timeout(rep, rng):
     """Channel.Open times out on the client (the broker may well have opened the channel: its OpenOk is merely late):
     nobody closed that number, so it must not be handed out again."""
@@ -456,6 +515,7 @@ def check(rep):
                 'schedules. distinct = distinct cases; non-trivial = the registry has a closed or wrapped-around id / the sequence reuses an id / '
                 'the schedule pre-empted inside channel()')
     rep.rule += '; SEQ-B also has a with-block whose body raises; deterministic histories: close on a stale object whose number was re-used, Channel.Open timing out; COSIM: channel() finishes within 1.5 virtual seconds'
+    rep.rule += '; deterministic history stale-reopen: open() on a closed channel object whose number was handed to a newer channel (model: Alloc.reopen)'
     rep.assumptions = [
         'lazy channels (channel(lazy=True)) are outside the op alphabet: their id is deliberately reusable while they are CLOSED (pinned by unit tests)',
         'the atomicity of allocate+register+open rests on the connection lock (skeleton obligation skel_Connection_channel)',
@@ -490,6 +550,8 @@ def check(rep):
         expect += ['ok', exp]
         meta += [('seq-a-random', max_ch, last, reg)] * 2
     rep.count('seq', 'A', len(lines) // 2)
+    for _ in range(4 if not thorough else 40):
+        seq_stale_reopen(rep, rng, lines, expect, meta)
     for _ in range(20 if not thorough else 200):
         for stage in (seq_alloc_during_closeok, seq_number_freed_only_after_handshake, seq_open_timeout):
             try:
@@ -579,6 +641,11 @@ def replay(data):
         live = {c for c, s in r['registry'] if s != 0}
         print('nextId ->', exp)
         bad = (i is None and any(c not in live for c in range(1, r['max'] + 1))) or (i is not None and (i in live or not 1 <= i <= r['max']))
+    elif r['kind'] == 'stale-reopen':
+        o = stale_reopen_history(r['max'], r['warm'])
+        print(o)
+        in_use = [i for i, st in zip(o.get('ids', []), o.get('states', [])) if st != 0]
+        bad = len(in_use) != len(set(in_use)) or bool(o.get('broker')) or o['abort'] != 'all application threads finished'
     elif r['kind'] == 'cosim':
         out = cosim_one((r['scenario'], r['seed']))
         print(out['broker_violations'], out['opened_ids'], out['abort'])
